@@ -36,6 +36,8 @@ type Prog struct {
 	SSA   *ssa.Program
 	SPkgs map[string]*ssa.Package
 
+	Notes []string // rename resolutions (anchors.go)
+
 	cg       *callgraph.Graph
 	modFuncs []*ssa.Function
 	fnDecl   map[*ssa.Function]*ast.FuncDecl
@@ -88,6 +90,7 @@ func Load(repo, arch string) (*Prog, error) {
 		p.Pkgs[pk.Name] = pk
 		p.SPkgs[pk.Name] = spkgs[i]
 	}
+	p.Notes = p.resolveRenames()
 	return p, nil
 }
 
@@ -178,6 +181,9 @@ func (p *Prog) Pos(pos token.Pos) string {
 // or parent$N for literals (ssa's own naming, which numbers literals in source
 // order within the enclosing function).
 func FuncKey(f *ssa.Function) string {
+	if k, ok := aliasedKey(f); ok {
+		return k
+	}
 	pk := FuncPkg(f)
 	name := f.RelString(pk)
 	if pk != nil {
@@ -201,6 +207,24 @@ func (p *Prog) FuncDecl(f *ssa.Function) *ast.FuncDecl {
 
 // LookupFunc resolves "pkgname", "Func" or "pkgname", "(*T).Method"/"(T).Method"/"T.Method".
 func (p *Prog) LookupFunc(pkg, name string) *ssa.Function {
+	if f := p.lookupFunc(pkg, name); f != nil {
+		return f
+	}
+	// renamed? (anchors.go)
+	want := pkg + "." + strings.TrimPrefix(name, pkg+".")
+	aliasMu.Lock()
+	defer aliasMu.Unlock()
+	for f, k := range aliasKey {
+		if f.Prog == p.SSA && normKey(k) == normKey(want) {
+			return f
+		}
+	}
+	return nil
+}
+
+func normKey(k string) string { return strings.NewReplacer("(", "", ")", "", "*", "").Replace(k) }
+
+func (p *Prog) lookupFunc(pkg, name string) *ssa.Function {
 	sp := p.SPkgs[pkg]
 	if sp == nil {
 		return nil
